@@ -168,9 +168,9 @@ func (w *Workflow[Type, Status]) Run(ctx context.Context) {
 				})
 			} else {
 				// Run as sharded parallel consumers
-				for i := 1; i <= config.parallelCount; i++ {
+				for i := 1; i <= parallelCount; i++ {
 					track(w, func() {
-						connectorConsumer(w, config, i, config.parallelCount)
+						connectorConsumer(w, config, i, parallelCount)
 					})
 				}
 			}
